@@ -11,7 +11,8 @@ CONSTANTS Sigma <- SigmaFull
           Blocks = {"B1", "B2"}
           Comps <- CompsBoth
           SeriesIds = {0, 1, 10, 11}
-          Legacy = FALSE
+          Legacy = {}
           GroupSyms = 3
+          RecvValLen = 4
 INVARIANTS C13_NoConflation
 CHECK_DEADLOCK FALSE
